@@ -192,6 +192,10 @@ CATALOG = {
         "r_rel": (_v([-5e-7, 3e-7]), False),
         "r_inv2": (_v([3e-7, -4e-7]), False),        # inverted, other upper
         "r_tiny": (_v([-1e-10, 1e-10]), False),      # hardly any sample
+        # equal non-zero bounds: the whole segment without the plateau
+        # search, but an upper bound of their own with it
+        "r_eq1": (_v([1e-7, 1e-7]), False),
+        "r_eq3": (_v([3e-7, 3e-7]), False),
         "r_adv1": (_v([1.0, 10.0]), False),          # collide when a list is
         "r_adv2": (_v([1.01, 0.0]), False),          # encoded w/o separators
         "r_nan": (_v([0.0, float("nan")]), True),
